@@ -144,9 +144,10 @@ class Verdict:
         self.known = []           # (entry, description)
         self.notes = []
         self.t0 = time.time()
+        self._known = load_known()
 
     def violation(self, signature, what, replay_obj):
-        k = match_known(self.prop, signature)
+        k = match_known(self.prop, signature, self._known)
         if k is not None:
             if not any(e is k for e, _ in self.known):
                 self.known.append((k, what))
